@@ -79,6 +79,18 @@ CLAIMED = {
              'is modelled for plain names only (regex metacharacters are a known finding).',
         technique='Lean 4 proof (generic pipeline refinement: filter, map, first-occurrence dedup) + regenerated regex lists + differential run + event-level oracle',
         ref='8/C14'),
+    'C15': dict(
+        text='Lean 4 theorems on the model of logs.New and DecodeHexInString: key="value" is split into exactly key and quoted '
+             'value for every value without a double quote (spaces, =, #, commas, any byte) and the shared quote toggle returns to '
+             'its initial state; trimming returns the text between the quotes; hex(bytes) decodes to the same bytes for every byte '
+             'string (256-case kernel evaluation lifted by induction); a value holding a quote breaks the split (proved witness, '
+             'showing the hypothesis is needed). The model is run against logs.New and DecodeHexInString; every reported record is '
+             'compared field by field with the generated event it came from, with a malformed record placed before good ones.',
+        note='Trusted: Lean kernel; the outer split at spaces is covered by the model run and a kernel-evaluated example, not by a '
+             'general theorem; the documented generalisation of profile/name/target is taken from the running rewrite list; '
+             'generators produce kernel-shaped records (quoted or hex values).',
+        technique='Lean 4 proof (toggle-splitting lemmas, hex round trip) + differential run + event-level oracle',
+        ref='8/C15'),
 }
 
 REASON_TODO = 'check not built yet in this round; no claim is made (see DESIGN.md section 13)'
